@@ -75,6 +75,16 @@ def make_components():
         return "distanceDir {\n%s%s%s" % (grp("group1", a), grp("group2", b), extra), [a, b]
     C["distanceDir"] = ("unit3", distance_dir)
 
+    # the same distance-like components with minimum-image distances switched off (forceNoPBC): a separate code path in each
+    def nopbc(f):
+        return lambda rng, P, extra="": f(rng, P, "  forceNoPBC on\n" + extra)
+    C["distance_nopbc"] = ("scalar", nopbc(distance))
+    C["distanceVec_nopbc"] = ("vector3", nopbc(distance_vec))
+    C["distanceDir_nopbc"] = ("unit3", nopbc(distance_dir))
+    C["distanceZ_nopbc"] = ("scalar", nopbc(distance_z))
+    C["distanceXY_nopbc"] = ("scalar", nopbc(distance_xy))
+    C["distanceInv_nopbc"] = ("scalar", nopbc(distance_inv))
+
     def angle(rng, P, extra=""):
         s = rng.sample(range(NAT), 6)
         g = [s[0:2], s[2:3], s[3:6]]
